@@ -732,7 +732,11 @@ class World:
             cls, uexp = "", None
         if i.opaque:
             cls, uexp = g.get("class") or "", ""
-        if (g.get("class") or "") != cls:
+        gotc = g.get("class") or ""
+        # a class (or rule name) longer than the request's class field is reported cut; where exactly (62 or 63
+        # characters) is not stated anywhere, so for such names any prefix of at least 62 characters is accepted
+        cls_ok = (gotc == cls) if len(cls) <= 62 else (len(gotc) >= 62 and cls.startswith(gotc))
+        if not cls_ok:
             self.v(("C11", "C05"), "class", "client %d got class %r, first matching rule gives %r: %r" % (cid, g.get("class") or "", cls, ln))
         ugot = getattr(i, "u_line", None)
         if uexp == "":
